@@ -388,6 +388,8 @@ def run(ctx):
         # ---- i  regardless of which descriptors are free: tools reserve 0..2 before opening anything
         from ..rules import extra as _extra
         nt = _extra.check_std_fds(ck, prog, config, 'C01-i')
+        # ---- j  the reader notices the end of the data when it ends the last chunk
+        _extra.check_end_of_data(ck, prog, config, 'C01-j')
         ck.min_instances('tool main() functions that open files', nt, 5)
         # ---- h  the zck tool's split-string scanner: two structural necessary conditions (the scanner as a whole is declined)
         from ..rules import guardlen
@@ -405,7 +407,7 @@ def run(ctx):
 CLAIM = {
     'technique': 'flush typestate with the chunk-end function inlined and constant arguments propagated, sentinel '
                  'consistency rule, layout table comparison, linear conservation per loop segment, write/index '
-                 'pairing, relational order facts, stale-cache dataflow, write-retry continuation (result symbols, bounded unrolling), guarded-length lint by Fourier-Motzkin elimination and deferred-flush lint over the zck tool\'s scanner, std-descriptor reservation dominance in every tool main()',
+                 'pairing, relational order facts, stale-cache dataflow, write-retry continuation (result symbols, bounded unrolling), guarded-length lint by Fourier-Motzkin elimination and deferred-flush lint over the zck tool\'s scanner, std-descriptor reservation dominance in every tool main(), end-of-data typestate after every chunk end on the read side',
     'text': 'static analysis: decides necessary conditions C01-a..f - a successful close cannot leave a refused final '
             'chunk unwritten; the temp descriptor cannot take its sentinel value; writer and reader agree on the header '
             'layout; zck_write hands every byte of the buffer to the compressor exactly once; what goes to the temp '
@@ -416,6 +418,10 @@ CLAIM = {
 }
 
 MUTANTS = [
+    {'id': 'm01j', 'desc': 'last chunk ended without noticing the end of the data', 'file': 'src/lib/comp/comp.c',
+     'old': """            if(zck->comp.data_idx == NULL)
+                zck->comp.data_eof = true;
+            continue;""", 'new': """            continue;""", 'expect': 'R6.end-of-data comp_read'},
     {'id': 'm01f', 'desc': 'zck no longer reserves the standard descriptors (pre-fix form)', 'file': 'src/zck.c',
      'old': '    reserve_std_fds();\n', 'new': '', 'expect': 'R7.std-fds zck.c'},
     {'id': 'm01s', 'desc': 'split scanner: queued byte dropped when exactly one byte precedes a match (pre-fix form)',
